@@ -8,7 +8,17 @@ ROOT = os.path.dirname(os.path.abspath(__file__))
 H = []
 
 
-def add(name, config, primary, quick=(), thorough=(), timeout=1500, mem_gb=24, cost=60, **bounds):
+def add(name, config, primary, quick=(), thorough=(), timeout=1500, mem_gb=None, cost=60, **bounds):
+    if mem_gb is None:
+        # resident-memory estimate used by the scheduler (measured peaks are in the evidence files)
+        if name.startswith("fam_costream"):
+            mem_gb = 10
+        elif config == "std":
+            mem_gb = 8
+        elif "vec_proofs" in name or name.startswith("fam_group"):
+            mem_gb = 8
+        else:
+            mem_gb = 3
     H.append({"name": name, "config": config, "primary": primary, "quick": sorted(set(quick)),
               "thorough": sorted(set(thorough) - set(quick)), "timeout": timeout, "mem_gb": mem_gb,
               "cost": cost, "bounds": bounds})
@@ -124,7 +134,7 @@ add(F + "join_tup2_r3", "std", "C16", quick=STD + ["C04"], thorough=["C03", "C20
 add(F + "tryjoin_tup2_r3", "std", "C16", quick=STD + ["C05"], thorough=["C03", "C20"], cost=160, children=2, rounds=3)
 add(F + "join_tup3_r3", "std", "C16", thorough=STD + ["C04", "C03", "C20"], cost=260, children=3, rounds=3)
 add(F + "join_tup2_r4", "std", "C16", thorough=STD + ["C04", "C03", "C20"], cost=300, children=2, rounds=4)
-add(FV + "join_vec2_r2_quiet", "std", "C16", quick=["C16", "C04"], thorough=["C01", "C03"], cost=380, timeout=2400, mem_gb=40, children=2, rounds=2,
+add(FV + "join_vec2_r2_quiet", "std", "C16", quick=[], thorough=["C16", "C04", "C01", "C03"], cost=380, timeout=2400, mem_gb=40, children=2, rounds=2,
     note="children do not wake from inside a poll")
 add(S + "merge_arr2_k1_r3", "std", "C16", quick=STD + ["C08"], thorough=["C03", "C20"], cost=200, children=2, rounds=3)
 add(S + "merge_tup2_k1_r3", "std", "C16", quick=STD + ["C08"], thorough=["C03", "C20"], cost=200, children=2, rounds=3)
